@@ -60,6 +60,9 @@ func init() {
 		// functions (4 ed25519.NewKeyFromSeed, PrivateKey.Seed, cipher.NewCTR, AEAD Seal and Open,
 		// 6 byte-order accessors).
 		Floors: map[string]int{"D1": 2, "D2": 23, "D3": 2, "D4": 100, "D5": 2, "D6": 14},
+		Borrows: []Borrow{
+			{From: "C13", Rules: []string{"D4"}, Why: "the since/until identifiers of GroupMetadataList / GroupMessageList come from the request; the range selection is evaluated there for every position of both identifiers, and an index outside the entry slice (off-by-one at either end) is a run-time panic in the handler's goroutine"},
+		},
 		Run:    runC19,
 	})
 }
